@@ -33,6 +33,11 @@ package utils
 //@   at-return {C02} [no-amz-header-outside-the-signature] when ret0 == nil :: ensures !hasUnsignedAmzHeader(ctx, signedHdrs)
 //@ func CheckPresignedSignature
 //@   at-return {C02} [no-amz-header-outside-the-signature] when ret0 == nil :: ensures !hasUnsignedAmzHeader(ctx, signedHdrs)
+// C02: a presigned url is accepted only inside its window: signed at most `exp` seconds ago, at most a week, and not
+// dated in the future beyond the clock skew
+//@ func validateExpiration
+//@   arith assumed
+//@   at-return {C02} [accepted-only-inside-the-window] when ret0 == nil :: ensures 0 <= exp && exp <= 604800 && passed <= exp && passed >= -timeExpirationSec
 //@ func IsSpecialPayload
 //@   pure
 //@ func IsStreamingPayload
